@@ -170,7 +170,14 @@ Proof. exact (fun validate r Hbad => conj (make_cookie_rejects validate r Hbad) 
 Print Assumptions C07_rejects.
 
 (* ... and a legal request is never refused: a line is emitted *)
+(* a max_age that is not a number (int() refuses it) is refused, unless the cookie is being deleted *)
+Theorem C07_rejects_bad_max_age : forall validate r,
+  mc_bad_max_age r = true -> make_cookie validate r = Raise ValueError.
+Proof. exact rejects_bad_max_age. Qed.
+Print Assumptions C07_rejects_bad_max_age.
+
 Theorem C07_accepts : forall validate r,
+  mc_bad_max_age r = false ->
   name_accepted (r_name r) = true ->
   (forall t, r_value r = CText t -> is_ascii t = true) ->
   req_octets r -> plain (r_date r) = true ->
